@@ -310,6 +310,7 @@ theorem uframe_step (sl : RemKind → Bool → Bool) (o px : Lid) (s : UState) (
   | clearTable k => cases k <;> exact ⟨h1, h2, h3, h4⟩
   | clearEndpointRef => simp only [UState.core]; split <;> exact ⟨h1, h2, h3, h4⟩
   | unloadChildren => exact ⟨h1, h2, h3, h4⟩
+  | returnIfDown => exact ⟨h1, h2, h3, h4⟩
 
 /-- the registry part of the state after any unload op: only `remove` and `clearFwd` steps happen -/
 theorem ustep_world (sl : RemKind → Bool → Bool) (s : UState) (op : UOp) :
@@ -1530,5 +1531,22 @@ theorem loadOps_fwd_ref (c : ClassInfo) (viaOuter : Bool) (self proxy : Lid) (pf
       exact hbase e he h
     · simp only [if_true, World.run, List.foldl_cons, List.foldl_nil] at he
       exact hbase e he h
+
+
+/-- for a script without `if self._shutdown: return` the control-flow-aware run is the plain run -/
+theorem runG_eq_run (sl : RemKind → Bool → Bool) (acq : Nat → Nat) :
+    ∀ (script : List UOp) (s : UState), UOp.returnIfDown ∉ script → s.runG sl acq script = s.run sl acq script := by
+  intro script
+  induction script with
+  | nil => intro s _; rfl
+  | cons op rest ih =>
+    intro s h
+    have hop : op ≠ UOp.returnIfDown := fun e => h (e ▸ List.mem_cons_self)
+    have hr : UOp.returnIfDown ∉ rest := fun m => h (List.mem_cons_of_mem _ m)
+    simp only [UState.runG, UState.run, List.foldl_cons]
+    have : (decide (op = UOp.returnIfDown) && s.tmDown) = false := by simp [hop]
+    rw [this]
+    simp only [Bool.false_eq_true, if_false]
+    exact ih _ hr
 
 end Ipv8.C11
